@@ -45,7 +45,7 @@ def classify_k1(kind, alpha, lam, n_rows, x, got, want_mean):
 
 def run_case(rs, ctx):
     kind = gen.LIN_KINDS[ctx.index % 3]
-    d = int(gen.pick(rs, [1, 1, 2, 3, 5, 8]))
+    d = int(gen.pick(rs, [1, 1, 2, 3, 5, 8, 16, 33]))  # incl. wide contexts: more features than rows per update
     lam = float(gen.pick(rs, [0.01, 0.5, 1.0, 3.0, 10.0]))
     scale = bool(rs.integers(4) == 0)
     if ctx.index % 150 == 7:
@@ -72,7 +72,7 @@ def run_case(rs, ctx):
     zero_arm = arms[int(rs.integers(len(arms)))] if rs.integers(2) else None
     late_from = int(rs.integers(1, 6))
     for c in range(n_chunks):
-        n = 1 if (c and rs.integers(3) == 0) else int(rs.integers(1 if c else max(2, d), 14))
+        n = 1 if (c and rs.integers(3) == 0) else int(rs.integers(1 if c else (max(2, d) if d <= 8 else 2), 14))
         if huge:
             n = int(rs.integers(140000, 200000))
         pool = [a for a in arms if a != zero_arm or c >= late_from] or arms
